@@ -9,7 +9,8 @@ Model of one SMTP/LMTP connection of maddy's endpoint (core Lean only).  Mirrore
 * `internal/endpoint/smtp/smtp.go`: `NewSession`; `session.go`: `Mail`, `Rcpt`, `rcpt`, `startDelivery`,
   `Data`, `LMTPData`, `statusWrapper.SetStatus`, `Reset`, `Logout`, `abort`, `cleanSession`, `releaseLimits`;
 * `internal/msgpipeline/msgpipeline.go`: `Start`/`start`, `AddRcpt`, `getDelivery`, `Body`, `BodyNonAtomic`,
-  `Commit`, `Abort` (one global check, one global modifier, per-domain destination blocks);
+  `Commit`, `Abort` (one global check, one global modifier — which may rewrite recipients, see `rewriteRcpt` —,
+  per-domain destination blocks);
 * `internal/limits/limits.go`: `TakeMsg` / `ReleaseMsg` as counters per source key; the order of the scopes and
   the roll-back of `TakeMsg` (`takeMsg`, `releaseMsg`).
 
@@ -337,6 +338,30 @@ def abortAll (m : MailF) : List DEntry → Log → Log
 def pAbort (pd : PDel) (st : World) : World :=
   let (st1, ord) := nextOrder st pd.ents
   { st1 with log := abortAll pd.mail ord st1.log }
+
+/-! ### recipient rewriting
+
+`AddRcpt` passes the RCPT TO argument through the global modifier (`RewriteRcpt`) before it looks for the
+destination block; the targets are given the EFFECTIVE address, `delivery.recipients` and every status the
+pipeline generates itself (`setStatusAll`, `Body` failure of a target without per-recipient results) keep the
+ORIGINAL one.  In the model `RcptF.uid` is the RCPT TO argument — the key of go-smtp's status collector, of
+`rcptKeys` and of `DEntry.rcpts` — and `RcptF.dom` the domain of the effective address.  A rewrite table
+(RCPT TO argument ↦ domain of the effective address, `none` = not rewritten) turns the recipients as the client
+sent them into the recipients the model runs on; nothing is assumed about the table (chains `a → b` with `b`
+supplied too, several aliases of one mailbox, an alias together with its own rewriting result).  Statuses of
+targets that report per recipient come back under the effective address and are translated through a map keyed
+by it: the model files them under the recipient they were reported for, which is what the code does as long as
+no two different RCPT TO arguments of one transaction share an effective address on such a target (otherwise:
+known finding KF-C09-1, not generated by the C03 harness). -/
+
+def rewriteRcpt (rw : Nat → Option Nat) (r : RcptF) : RcptF :=
+  match rw r.uid with
+  | some d => { r with dom := d }
+  | none => r
+
+def rewriteTok (rw : Nat → Option Nat) : Tok → Tok
+  | .rcpt r => .rcpt (rewriteRcpt rw r)
+  | t => t
 
 /-! ### LMTP statuses -/
 
